@@ -30,7 +30,7 @@ impl Dist {
 
 	pub(crate) fn deserialize(read: &mut impl io::Read) -> FResult<Self> {
 		let len = usize::deserialize(read)?;
-		let mut parts = Vec::with_capacity(len);
+		let mut parts = Vec::with_capacity(crate::serialize::prealloc(len));
 		for _ in 0..len {
 			let k = Complex::deserialize(read)?;
 			let v = BigRat::deserialize(read)?;
